@@ -10,7 +10,53 @@ from . import common as cm
 from . import opscfg
 
 ID = 'C15'
-cases, describe, reduce, nontrivial = opscfg.cases, opscfg.describe, opscfg.reduce, opscfg.nontrivial
+describe_base, reduce, nontrivial = opscfg.describe, opscfg.reduce, opscfg.nontrivial
+
+
+def cases(tier, seed):
+    yield from opscfg.cases(tier, seed)
+    # chains around and beyond the interpreter's recursion limit with an optional leaf every 100 levels:
+    # running out of stack is a resource failure outside the reference model; sets that are returned
+    # have to be the partition
+    for n in (300, 900, 1500, 2500):
+        for link in ((1, 1), (0, 1)):
+            yield ('DC', n, link)
+
+
+def describe(case):
+    if case[0] == 'DC':
+        return 'DC:chain of %d levels linked by %s with an optional leaf every 100 levels' % (case[1], list(case[2]))
+    return describe_base(case)
+
+
+def _deep_chain(case):
+    from flamapy.metamodels.fm_metamodel.models import Feature, FeatureModel, Relation
+    _k, n, link = case
+    feats = [Feature('N%d' % i, []) for i in range(n)]
+    extra = []
+    for i in range(n - 1):
+        if i % 100 == 50:
+            leaf = Feature('L%d' % i, [])
+            extra.append(leaf.name)
+            feats[i].add_relation(Relation(feats[i], [leaf], 0, 1))
+        feats[i].add_relation(Relation(feats[i], [feats[i + 1]], link[0], link[1]))
+    fm = FeatureModel(feats[0], [])
+    engine.tick(n)
+    try:
+        res = FMAtomicSets().execute(fm).get_result()
+        sets = sorted(sorted(f.name for f in s) for s in res)
+    except RecursionError:
+        return []
+    except Exception as exc:  # noqa: BLE001
+        return [Fail('raises:%s' % type(exc).__name__, 'chain of %d levels' % n)]
+    chain = ['N%d' % i for i in range(n)]
+    want = sorted([sorted(chain)] + [[x] for x in extra]) if link == (1, 1) else sorted([[x] for x in chain + extra])
+    if sets != want:
+        flat = [x for s_ in sets for x in s_]
+        clause = 'not-a-partition' if sorted(flat) != sorted(chain + extra) else ('mandatory-child-split' if link == (1, 1) else 'not-co-selected')
+        return [Fail(clause, {'sets returned': len(sets), 'expected': len(want), 'features': n + len(extra), 'members returned': len(flat)})]
+    engine.validated()
+    return []
 
 
 def plan(tier):
@@ -63,9 +109,15 @@ def judge(res, model):
 
 
 def check(case):
+    if case[0] == 'DC':
+        return _deep_chain(case)
     model = opscfg.resolve(case)
     if case[0] == 'SE':
         return opscfg.edit_history(model, FMAtomicSets, judge)
+    if case[0] == 'SF':
+        return opscfg.failure_history(model, FMAtomicSets, judge)
+    if case[0] == 'SO':
+        return opscfg.result_ownership(model, FMAtomicSets, judge)
     fm, fails = cm.built(model)
     if fails:
         return fails
@@ -79,6 +131,8 @@ def check(case):
 
 
 def outcome(case):
+    if case[0] == 'DC':
+        return 'deep-chain'
     if case[0] == 'B':
         return 'big'
     return 'nsets?'
